@@ -17,15 +17,15 @@ fn o(x: Option<f64>) -> String { x.map(hx).unwrap_or("-".into()) }
 
 /// linear problems whose iteration matrices are exactly singular at the first step size h0:
 /// `real`: J = (U1/h0) I  makes E1 = (U1/h0) I - J = 0;  otherwise J = [[a, -b], [b, a]] with a + ib = (ALPH + i BETA)/h0 makes E2 singular
-struct Sing { real: bool, h0: f64 }
+struct Sing { real: bool, h0: f64, nf: std::cell::Cell<usize>, nj: std::cell::Cell<usize> }
 impl Sing {
     fn coef(&self) -> (f64, f64) {
         if self.real { (3.637_834_252_744_496 / self.h0, 0.0) } else { (2.681_082_873_627_752_3 / self.h0, 3.050_430_199_247_410_5 / self.h0) }
     }
 }
 impl IVP for Sing {
-    fn ode(&self, _t: f64, y: &[f64], d: &mut [f64]) { let (a, b) = self.coef(); d[0] = a * y[0] - b * y[1]; d[1] = b * y[0] + a * y[1]; }
-    fn jac(&self, _t: f64, _y: &[f64], j: &mut Matrix) { let (a, b) = self.coef(); j[(0, 0)] = a; j[(0, 1)] = -b; j[(1, 0)] = b; j[(1, 1)] = a; }
+    fn ode(&self, _t: f64, y: &[f64], d: &mut [f64]) { self.nf.set(self.nf.get() + 1); let (a, b) = self.coef(); d[0] = a * y[0] - b * y[1]; d[1] = b * y[0] + a * y[1]; }
+    fn jac(&self, _t: f64, _y: &[f64], j: &mut Matrix) { self.nj.set(self.nj.get() + 1); let (a, b) = self.coef(); j[(0, 0)] = a; j[(0, 1)] = -b; j[(1, 0)] = b; j[(1, 1)] = a; }
 }
 
 pub fn run(args: &[String]) {
@@ -64,7 +64,7 @@ pub fn run(args: &[String]) {
         let solver = RADAU::builder().max_steps(nmax).scale_min(smin).scale_max(smax).newton_maxiter(maxnewton).predictive(predictive)
             .maybe_newton_tol(ntol).maybe_first_step(first).maybe_max_step(maxstep).maybe_min_step(minstep).mass_storage(MatrixStorage::Identity).build();
         // every 25th case: an iteration matrix that is exactly singular at the first step size
-        let sing = if id % 25 == 24 { let h0 = first.unwrap_or(1.0e-6).abs().min(maxstep.unwrap_or(f64::INFINITY)).min(span) * (xend - x0).signum(); Some(Sing { real: id % 50 == 24, h0 }) } else { None };
+        let sing = if id % 25 == 24 { let h0 = first.unwrap_or(1.0e-6).abs().min(maxstep.unwrap_or(f64::INFINITY)).min(span) * (xend - x0).signum(); Some(Sing { real: id % 50 == 24, h0, nf: 0.into(), nj: 0.into() }) } else { None };
         ivp::verif_hooks::trace_start();
         let res = std::panic::catch_unwind(std::panic::AssertUnwindSafe(|| match &sing {
             Some(sp) => solver.solve(sp, x0, &[1.0, 0.5], xend, rtol.into(), atol.into(), Some(&mut rec)),
@@ -73,7 +73,8 @@ pub fn run(args: &[String]) {
         let tr = ivp::verif_hooks::trace_take();
         let res = match res { Ok(Ok(r)) => r, _ => { *hist.entry("error-or-panic".into()).or_default() += 1; continue; } };
         *hist.entry(format!("{}/{}", if sing.is_some() { "Singular".to_string() } else { format!("{:?}", kind) }, st(res.status))).or_default() += 1;
-        let endline = format!("end {} h={} total={} acc={} rej={} ode={} jac={} lu={}", st(res.status), hx(res.h), res.steps.total, res.steps.accepted, res.steps.rejected, res.evals.ode, res.evals.jac, res.evals.lu);
+        let (fcalls, jcalls) = match &sing { Some(sp) => (sp.nf.get(), sp.nj.get()), None => (p.count.get(), p.jcount.get()) };
+        let endline = format!("end {} h={} total={} acc={} rej={} ode={} jac={} lu={} fcalls={} jcalls={}", st(res.status), hx(res.h), res.steps.total, res.steps.accepted, res.steps.rejected, res.evals.ode, res.evals.jac, res.evals.lu, fcalls, jcalls);
         // the transformed rtol[0] (the model takes it as input; the transformation itself is a translated region)
         let tolst = 0.1 * rtol.powf(2.0 / 3.0);
         let cb0 = tr.iter().find(|e| e.0 == "cb").map(|e| e.1[0]).unwrap_or(0.0);
